@@ -290,6 +290,22 @@ func runHist(r *hx.Rng, in *c05x.HistIn) (rec c05x.HistRec) {
 			rec.FinalErr = c05x.Str("other")
 		}
 	}()
+	func() {
+		defer func() {
+			if r := recover(); r != nil {
+				rec.PrepErr = c05x.Str("panic")
+			}
+		}()
+		chain2 := blockchain.NewChain(&blockchain.ChainConfig{ChainID: []byte{0, 0, 0, 0}, MaxTransactionsLength: 15360, MaxBlockCache: rec.MaxCache, KeepEventsForHeights: rec.Keep})
+		chain2.Init(genesis, database)
+		if err := chain2.PrepareCache(); err != nil {
+			rec.PrepErr = c05x.Classify(err)
+			return
+		}
+		if lb := chain2.LastBlock(); lb != nil {
+			rec.PrepTip = &c05x.TipObs{ID: c05x.Hex(lb.Header.ID), Height: lb.Header.Height}
+		}
+	}()
 	if err := database.Close(); err != nil {
 		rec.CloseErr = c05x.Str("other")
 		if strings.Contains(err.Error(), "leaked iterators") {
